@@ -110,13 +110,19 @@ def audit_axioms(prop, theorems):
     return res, r.stdout
 
 
+# further statement files that belong to a property (extensions proved later: pointer/radix-tree refinements, progress)
+EXTRA_PROPS = {"C05": ["C05rat"], "C07": ["C07progress"], "C16": ["C16ptr"]}
+
+
 def proof_phase(prop):
     """Regenerate, build, audit. Returns dict with 'failures' (list of str) and counts."""
     t0 = time.time()
-    ob = obligations(prop)
+    ob = dict(obligations(prop))
+    ob["theorems"] = list(ob["theorems"])
+    extras = [e for e in EXTRA_PROPS.get(prop, []) if os.path.exists(os.path.join(LEAN, "Ivy", "Props", e + ".lean"))]
     failures = []
     gen_facts = regenerate()
-    ok, log = lean_build([f"Ivy.Props.{prop}"])
+    ok, log = lean_build([f"Ivy.Props.{p}" for p in [prop] + extras])
     if not ok:
         errs = [l for l in log.splitlines() if "error" in l.lower()][:8]
         failures.append("lake build Ivy.Props.%s failed: %s" % (prop, " | ".join(errs)))
@@ -130,10 +136,19 @@ def proof_phase(prop):
     h = props_hash(prop)
     if ob.get("props_sha256") and h != ob["props_sha256"]:
         failures.append(f"Ivy/Props/{prop}.lean differs from the pinned statement file (obligations.json)")
+    for e in extras:
+        oe = obligations(e)
+        if oe.get("props_sha256") and props_hash(e) != oe["props_sha256"]:
+            failures.append(f"Ivy/Props/{e}.lean differs from the pinned statement file (obligations.json)")
     discharged = 0
     axioms = {}
     if ok:
         axioms, raw = audit_axioms(prop, ob["theorems"])
+        for e in extras:
+            oe = obligations(e)
+            ax_e, _ = audit_axioms(e, oe["theorems"])
+            axioms.update(ax_e)
+            ob["theorems"] += oe["theorems"]
         for t in ob["theorems"]:
             ax = axioms.get(t)
             if ax is None:
